@@ -1,3 +1,166 @@
+// instr: statement-level yield-point instrumentation for the schedule explorer (DESIGN.md 6.C10).
+// Usage: instr <outdir> <fragment.json> <file.go>...   — writes an instrumented copy of every file and an overlay
+// fragment mapping original -> copy. A call verifsched.P(id) is inserted before every statement of every block,
+// case clause and comm clause; `import "sync"` is redirected to the cooperative shim. `go` statements are reported.
 package main
 
-func main() {}
+import (
+	"bytes"
+	"encoding/json"
+	"fmt"
+	"go/ast"
+	"go/format"
+	"go/parser"
+	"go/printer"
+	"go/token"
+	"os"
+	"path/filepath"
+	"strconv"
+)
+
+const schedPath = "github.com/Azbesciak/RealDecisionMaker/lib/verifsched"
+
+type pointInfo struct {
+	ID    int    `json:"id"`
+	File  string `json:"file"`
+	Line  int    `json:"line"`
+	Func  string `json:"func"`
+	Entry bool   `json:"entry"`
+}
+
+func main() {
+	if len(os.Args) < 4 {
+		fmt.Fprintln(os.Stderr, "usage: instr <outdir> <fragment.json> <files...>")
+		os.Exit(2)
+	}
+	outDir, frag := os.Args[1], os.Args[2]
+	os.MkdirAll(outDir, 0o755)
+	overlay := map[string]string{}
+	var points []pointInfo
+	goStmts := 0
+	nextID := 1
+	for fi, path := range os.Args[3:] {
+		fset := token.NewFileSet()
+		f, err := parser.ParseFile(fset, path, nil, parser.ParseComments)
+		if err != nil {
+			fmt.Fprintln(os.Stderr, "instr:", err)
+			os.Exit(2)
+		}
+		// redirect sync
+		for _, im := range f.Imports {
+			if im.Path.Value == `"sync"` {
+				im.Path.Value = strconv.Quote(schedPath + "/vsync")
+				if im.Name == nil {
+					im.Name = ast.NewIdent("sync")
+				}
+			}
+		}
+		curFunc := ""
+		mk := func(pos token.Pos, entry bool) ast.Stmt {
+			id := nextID
+			nextID++
+			p := fset.Position(pos)
+			points = append(points, pointInfo{id, path, p.Line, curFunc, entry})
+			return &ast.ExprStmt{X: &ast.CallExpr{
+				Fun:  &ast.SelectorExpr{X: ast.NewIdent("verifsched__"), Sel: ast.NewIdent("P")},
+				Args: []ast.Expr{&ast.BasicLit{Kind: token.INT, Value: strconv.Itoa(id)}},
+			}}
+		}
+		instrList := func(list []ast.Stmt, entry bool) []ast.Stmt {
+			var out []ast.Stmt
+			for i, st := range list {
+				if _, isGo := st.(*ast.GoStmt); isGo {
+					goStmts++
+				}
+				out = append(out, mk(st.Pos(), entry && i == 0), st)
+			}
+			return out
+		}
+		var walk func(n ast.Node, entryBody *ast.BlockStmt)
+		walk = func(n ast.Node, entryBody *ast.BlockStmt) {
+			ast.Inspect(n, func(x ast.Node) bool {
+				switch b := x.(type) {
+				case *ast.FuncDecl:
+					if b.Body != nil {
+						old := curFunc
+						curFunc = b.Name.Name
+						walk(b.Body, b.Body)
+						curFunc = old
+					}
+					return false
+				case *ast.FuncLit:
+					old := curFunc
+					curFunc = curFunc + ".func"
+					walk(b.Body, b.Body)
+					curFunc = old
+					return false
+				case *ast.SwitchStmt:
+					for _, cl := range b.Body.List {
+						walk(cl, nil)
+					}
+					return false
+				case *ast.TypeSwitchStmt:
+					for _, cl := range b.Body.List {
+						walk(cl, nil)
+					}
+					return false
+				case *ast.SelectStmt:
+					for _, cl := range b.Body.List {
+						walk(cl, nil)
+					}
+					return false
+				case *ast.BlockStmt:
+					for _, st := range b.List {
+						walk(st, nil)
+					}
+					b.List = instrList(b.List, b == entryBody)
+					return false
+				case *ast.CaseClause:
+					for _, st := range b.Body {
+						walk(st, nil)
+					}
+					b.Body = instrList(b.Body, false)
+					return false
+				case *ast.CommClause:
+					for _, st := range b.Body {
+						walk(st, nil)
+					}
+					b.Body = instrList(b.Body, false)
+					return false
+				}
+				return true
+			})
+		}
+		for _, d := range f.Decls {
+			walk(d, nil)
+		}
+		var buf bytes.Buffer
+		// drop comments that would be misplaced by statement insertion (keep build constraints out of lib files anyway)
+		f.Comments = nil
+		if err := format.Node(&buf, fset, f); err != nil {
+			var b2 bytes.Buffer
+			printer.Fprint(&b2, fset, f)
+			os.WriteFile("/tmp/instr_broken.go", b2.Bytes(), 0o644)
+			fmt.Fprintln(os.Stderr, "instr:", path, err)
+			os.Exit(2)
+		}
+		src := buf.String()
+		// add the import after the package clause
+		idx := bytes.Index([]byte(src), []byte("\n"))
+		pkgEnd := bytes.Index([]byte(src), []byte("package "))
+		nl := bytes.IndexByte([]byte(src[pkgEnd:]), '\n')
+		_ = idx
+		src = src[:pkgEnd+nl+1] + "\nimport verifsched__ \"" + schedPath + "\"\n" + src[pkgEnd+nl+1:] + "\nvar _ = verifsched__.P\n"
+		out := filepath.Join(outDir, fmt.Sprintf("f%03d_%s", fi, filepath.Base(path)))
+		if err := os.WriteFile(out, []byte(src), 0o644); err != nil {
+			fmt.Fprintln(os.Stderr, err)
+			os.Exit(2)
+		}
+		overlay[path] = out
+	}
+	js, _ := json.MarshalIndent(overlay, "", " ")
+	os.WriteFile(frag, js, 0o644)
+	pj, _ := json.Marshal(map[string]interface{}{"points": points, "go_statements": goStmts})
+	os.WriteFile(filepath.Join(outDir, "points.json"), pj, 0o644)
+	fmt.Printf("instr: %d files, %d yield points, %d go statements\n", len(os.Args[3:]), len(points), goStmts)
+}
